@@ -139,7 +139,8 @@ Definition check_P (p : string) (args : list sexp) : list sexp :=
            A ("honest:" ++ (if honest then "t" else "f") ++ (if expect' then "/expected" else ""));
            A (if legacy then "fmt:legacy" else "fmt:w3c");
            (* the case lies in the class for which the end-to-end statement is a theorem (C04_legacy_plain) *)
-           A (if legacy && (plain_b c || rev_b c) then (if plain_b c then "class:theorem-covers" else "class:theorem-covers-rev") else "class:correspondence-only")]
+           A (if legacy && (plain_b c || rev_b c) then (if plain_b c then "class:theorem-covers" else "class:theorem-covers-rev")
+              else if negb legacy && honest && subjects_plain c && is_ok (build_regmap (pc_cx c)) then "class:theorem-covers-w3c" else "class:correspondence-only")]
       | _, _, _, _, _, _, _, _, _, _ => [A "decode-error"]
       end
   | _ => [A "decode-error"]
